@@ -189,4 +189,9 @@ func WithValue(parent Context, key, val any) Context {
 	return &valueCtx{parent, key, val}
 }
 
-func Cause(c Context) error { return c.Err() }
+func Cause(c Context) error {
+	if cc, ok := c.Value(causeKey{}).(*causeCtx); ok && cc != nil && *cc.cause != nil {
+		return *cc.cause
+	}
+	return c.Err()
+}
